@@ -224,6 +224,9 @@ pub fn run_families(property: &str, tier: &str, fams: Vec<Family>, budget_s: f64
         let done = AtomicBool::new(false);
         let wid = AtomicUsize::new(0);
         let hang_s: f64 = std::env::var("VX_HANG_S").ok().and_then(|s| s.parse().ok()).unwrap_or(20.0);
+        // Real-thread families run benches of up to 1500 models: more time before a call counts as hung
+        // (a heavily loaded machine must not turn slowness into a verdict).
+        let hang_s = if fam.uncontrolled.is_some() { hang_s * 3.0 } else { hang_s };
         std::thread::scope(|s| {
             // Watchdog: an execution normally takes microseconds.
             s.spawn(|| {
